@@ -57,13 +57,22 @@ CLAIMED = {
    note="Trusted: rustc MIR, Kani codegen, CBMC/CaDiCaL; stub Locator; the byte-level reference in kani/kern/src/refimpl.rs. Outside: texts > K chars, lone CR, non-boundary offsets."),
 }
 
+CLAIMED.update({
+ "C17": dict(engine="M", category="model_checking", design="DESIGN.md 3/C17",
+   technique="MIR symbolic execution/z3 of the definition/references handlers; annotated programs through the real oal-lsp as replay",
+   text="Partial: the handlers' own logic, given the definition slots the compiler filled in. go_to_definition answers with the location of the node stored in the definition slot of the variable found at the cursor offset, and with the empty array on every other path; find_definition takes a declaration's identifier to that declaration and a variable's identifier to the variable's own slot; one iteration of find_references records the location of a variable's identifier exactly when its definition slot equals the requested definition (z3: both directions) and iterates over all modules of the folder; references() collects the references of exactly the definition found under the cursor.",
+   note="Trusted: MIR text, mirsym, z3; structural equality for <Definition as PartialEq>::eq. Outside: that the slot holds the innermost binder (C08), syntax_at's search, range conversion (C16). A failing lemma is reported only if the real oal-lsp deviates from the binder/uses annotations of 3 programs (single module, two modules with a qualifier, shadowing + @reference): definition of every use, references of every declaration and their inverse, empty answers at non-identifiers."),
+ "C18": dict(engine="M+T", category="model_checking", design="DESIGN.md 3/C18",
+   technique="definition-node kinds extracted from the resolver's MIR vs. the casts the rename handler unwraps (finite z3 query) + panic inventory of the handlers; rename requests through the real oal-lsp with compile-equivalence as replay",
+   text="Partial. From the MIR of declare_variable / declare_import / open_declaration / open_recursion the set of syntax-node kinds the resolver stores as definitions is read off ({Declaration, Binding}); for every `K::cast(definition.node(..)).unwrap()` in the LSP handlers z3 decides whether some definition kind is not covered by K (a panic of the server's main loop). Every other panicking path of the 11 handler functions and their closures must match a stated contract of the tree / folder (Folder::contains(loc) == Folder::module(loc).is_some() is itself a lemma). rename_variable's edit set is the binder's identifier plus every reference of that very definition, each with the new name.",
+   note="Trusted: MIR text, mirsym, z3, the listed contracts. Outside: meaning preservation in general (sampled by the replay), renaming a qualifier from a use. A failing lemma is reported only if the real oal-lsp fails on the annotated programs: every prepareRename/rename is answered, edits replace exactly the announced name, do not overlap, number binder+uses, and the edited sources compile with the real oal-cli to the same document (component renamed for @references)."),
+})
+
 NA = {
  "C02": "needs the denotation of every program vs. the emitted document: whole evaluator+emitter (IndexMap/HashMap/Rc/serde_yaml) under a solver; two HashMap inserts do not finish under Kani in 5 min; a hand model would be a second implementation, not the real code",
  "C05": "relates two whole compilations of rewritten programs; same obstacle as C02",
  "C08": "resolver/evaluator scoping over arena trees and HashMap scope stacks; no encoding within reach",
  "C09": "petgraph SCC iteration and SHA-256 naming over arena indices; outside Kani and loop/graph-shaped so outside the MIR engine",
- "C17": "handlers traverse the arena and compare Definitions across a HashMap module set; needs whole trees under a solver",
- "C18": "alpha-equivalence of two whole compilations plus handler traversal; same obstacle",
 }
 
 PENDING = {
